@@ -553,7 +553,7 @@ def run(ctx):
         rv = p.outcome[1]
         conn = rv.elts[0] if isinstance(rv, ast.Tuple) and rv.elts else None
         ct = norm(conn)
-        conn_truthy = [v for a, v in p.decisions if re.search(r"%s$" % Gx('conn'), a.text)]
+        conn_truthy = [v for a, v in p.decisions if re.match(r"^%s$" % Gx('conn'), a.text)] + [not v for a, v in p.decisions if re.match(r"^%s is None$" % Gx('conn'), a.text)]
         orform = re.match(r"^%s or '(\w+)'$" % Gx('conn'), ct)
         if orform:
             good = True         # `group or CONST`: the tag when present (non-empty by the pattern), else one fixed id
